@@ -363,20 +363,20 @@ func init() {
 	}
 	register(&PropDef{
 		ID: "C12", Level: "exploration", Engine: "nodesim+tamperer",
-		Rule: "one case = one nodesim history (n=4..7, optional join) from which valid (block, frame, snapshot) triples are harvested at several points from several honest nodes; ~150 tamperings per case (every block-body field, frame round/peers/roots/events/peer-sets/timestamp, foreign frames, signature maps reduced to the threshold, foreign signers, replays, one signer under several spellings of its key) are offered to victims in three states (lagging, fresh, previously reset) through core.fastForward and through the node-level flow with a Byzantine responder; oracle: harness reference rule + full state digest (hashgraph, store, validator sets, core, application incl. Restore calls) unchanged after a refusal; non-trivial: >=10 tampered responses judged",
-		Assumptions: []string{"a response satisfying the rule but refused is not flagged", "tamperings that still satisfy the rule are skipped and counted"},
-		MinNontrivial: 6,
-		Cases: func(tier string, seed int64) []CaseSpec { return ffCases(tier, seed, 32, 400, 150) },
-		Run:   runC12,
+		Rule:           "one case = one nodesim history (n=4..7, optional join) from which valid (block, frame, snapshot) triples are harvested at several points from several honest nodes; ~150 tamperings per case (every block-body field, frame round/peers/roots/events/peer-sets/timestamp, foreign frames, signature maps reduced to the threshold, foreign signers, replays, one signer under several spellings of its key) are offered to victims in three states (lagging, fresh, previously reset) through core.fastForward and through the node-level flow with a Byzantine responder; oracle: harness reference rule + full state digest (hashgraph, store, validator sets, core, application incl. Restore calls) unchanged after a refusal; non-trivial: >=10 tampered responses judged",
+		Assumptions:    []string{"a response satisfying the rule but refused is not flagged", "tamperings that still satisfy the rule are skipped and counted"},
+		MinNontrivial:  6,
+		Cases:          func(tier string, seed int64) []CaseSpec { return ffCases(tier, seed, 32, 400, 150) },
+		Run:            runC12,
 		PerCaseTimeout: 10 * time.Minute,
 	})
 	register(&PropDef{
 		ID: "C14", Level: "exploration", Engine: "nodesim+forger",
-		Rule: "one case = one nodesim history plus ~40 forged fast-forward responses (1-4 attacker keys outside every set the victim knows, self-made validator set, block correctly signed by it, empty or copied frame content, block index small or higher than everyone's) offered to victims in three states through core.fastForward and through the node-level flow with the forger as one responder among honest ones; must be refused with the state digest unchanged; non-trivial: a forged response was judged against a victim that knows none of its signers",
-		Assumptions: []string{"'reason to trust' = configured peers, genesis peers, current validators and every validator set the node has derived"},
-		MinNontrivial: 6,
-		Cases: func(tier string, seed int64) []CaseSpec { return ffCases(tier, seed+7, 24, 300, 40) },
-		Run:   runC14,
+		Rule:           "one case = one nodesim history plus ~40 forged fast-forward responses (1-4 attacker keys outside every set the victim knows, self-made validator set, block correctly signed by it, empty or copied frame content, block index small or higher than everyone's) offered to victims in three states through core.fastForward and through the node-level flow with the forger as one responder among honest ones; must be refused with the state digest unchanged; non-trivial: a forged response was judged against a victim that knows none of its signers",
+		Assumptions:    []string{"'reason to trust' = configured peers, genesis peers, current validators and every validator set the node has derived"},
+		MinNontrivial:  6,
+		Cases:          func(tier string, seed int64) []CaseSpec { return ffCases(tier, seed+7, 24, 300, 40) },
+		Run:            runC14,
 		PerCaseTimeout: 10 * time.Minute,
 	})
 }
